@@ -68,7 +68,7 @@ Print Assumptions C01_state_as_modelled.
 (* the same for RESTS: for every well-formed rest (any duration incl. rational / dotted / grace marks, duplicate-free
    stand-alone rest signifiers) the recogniser reads the canonical text back as exactly that rest, and the normal form is
    a fixed point of export - import - export *)
-From KV Require Import RestProofs RestFixedProofs.
+From KV Require Import OptGen Tokenizers RestProofs RestFixedProofs.
 Theorem C01_reimport_of_canonical_rest : forall r, rest_ok r -> kern_recognise (str (print_rest r)) = KTok (rest_token r).
 Proof. exact recognise_print_rest. Qed.
 Print Assumptions C01_reimport_of_canonical_rest.
@@ -120,7 +120,7 @@ Print Assumptions C01_canonical_note_is_normal.
 
 (* the cells the fixed-point theorems cover are in normal form: canonical rests, canonical chords, and every cell the
    recogniser keeps as one simple token carrying its own text (interpretations such as clefs, meters, keys ...) *)
-From KV Require Import RestProofs RestFixedProofs.
+From KV Require Import OptGen Tokenizers RestProofs RestFixedProofs.
 Theorem C01_canonical_rest_is_normal : forall bad r, rest_ok r -> rest_canonical_order r ->
   mem_str (str (print_rest r)) bad = false -> normal_cell bad (str (print_rest r)).
 Proof. exact canonical_rest_is_normal. Qed.
